@@ -214,7 +214,8 @@ def units():
             Unit('branch_offsets', off, ['Proofs/BranchProofs.v'], [], offset_cases, IMPORTS,
                  SPEC_IMPORTS),
             Unit('pc_advance', adv, ['Proofs/BranchProofs.v'], ['arm_v6.ArmV6.increment_pc_if_needed'], advance_cases, IMPORTS, SPEC_IMPORTS),
-            Unit('whole_step', ['C04_step_compose', 'C04_step_completes'], ['Proofs/StepProofs.v'],
+            Unit('whole_step', ['C04_step_compose', 'C04_step_completes', 'C04_step_pc_written', 'C04_b_a1_step', 'C04_b_a1_pc', 'C04_b_t2_step', 'C04_b_t1_step'],
+                 ['Proofs/StepProofs.v', 'Proofs/StepInstancesBranch.v'],
                  ['arm_v6.ArmV6.emulate_cycle', 'arm_v6.ArmV6.execute_instruction', 'arm_v6.ArmV6.increment_pc_if_needed'], None,
                  IMPORTS, SPEC_IMPORTS),
             Unit('bxj', ['C04_Bxj'], ['Proofs/MiscProofs2.v'], ['opcodes.abstract_opcodes.bxj.Bxj.execute'], bxj_cases,
